@@ -224,16 +224,25 @@ Example equiv_c16_example :
   injective f /\ gequiv g g' /\ semi_path g [0;1;2] /\ semi_path (rmap f g) [f 0; f 1; f 2] /\ semi_path g' [0;1;2] /\
   In 2 (poss_desc g 0) /\ In (f 2) (poss_desc (rmap f g) (f 0)) /\ In 2 (poss_desc g' 0).
 Proof.
-  simpl. split; [intros a b H; lia|].
-  assert (He : gequiv (MkG [0;1;2;3] [(1,2);(0,1)] [] [(0,3)] [(1,0)]) (MkG [3;2;1;0;2] [(0,1);(1,2);(0,1)] [] [(3,0)] [(1,0)])).
-  { split; [intros a; simpl; tauto|].
+  intros g g' f.
+  assert (Hf : injective f) by (intros a b H; unfold f in H; lia).
+  assert (He : gequiv g g').
+  { split; [intros a; unfold g, g'; cbn [V In]; tauto|].
     assert (Hp : forall l l' : list (nat*nat), (forall q, In q l <-> In q l') -> forall q, pmemb q l = pmemb q l').
     { intros l l' H q. apply bool_eq_iff. rewrite !pmemb_In. apply H. }
-    repeat split; intros a b; unfold has_d, has_b, has_u, has_c, smemb; cbn [D B U C];
-      rewrite ?(Hp [(1,2);(0,1)] [(0,1);(1,2);(0,1)]); try reflexivity; try (intros q; simpl; tauto).
     assert (E : forall x y, pmemb (x, y) [(0,3)] = pmemb (y, x) [(3,0)]).
-    { intros x y. apply bool_eq_iff. rewrite !pmemb_In. simpl. split; (intros [K|[]]; left; inversion K; reflexivity). }
-    rewrite (E a b), (E b a). apply orb_comm. }
-  split; [exact He|].
-  repeat split; try (apply is_semi_spec; vm_compute; reflexivity); vm_compute; tauto.
+    { intros x y. apply bool_eq_iff. rewrite !pmemb_In. cbn [In]. split; (intros [K|[]]; left; inversion K; reflexivity). }
+    split; [|split; [|split]]; intros a b; unfold has_d, has_b, has_u, has_c, smemb, g, g'; cbn [D B U C].
+    - apply Hp. intros q. cbn [In]. tauto.
+    - reflexivity.
+    - rewrite (E a b), (E b a). apply orb_comm.
+    - reflexivity. }
+  assert (Hs : semi_path g [0;1;2]) by (apply is_semi_spec; vm_compute; reflexivity).
+  assert (Hd : In 2 (poss_desc g 0)) by (vm_compute; tauto).
+  split; [exact Hf|]. split; [exact He|]. split; [exact Hs|].
+  split; [exact (proj2 (semi_path_rmap f Hf g [0;1;2]) Hs)|].
+  split; [exact (proj1 (semi_path_gequiv g g' _ He) Hs)|].
+  split; [exact Hd|]. split; [exact (proj2 (poss_desc_rmap f Hf g 0 2) Hd)|].
+  assert (H0 : In 0 (V g)) by (left; reflexivity).
+  exact (proj1 (poss_desc_gequiv g g' 0 2 He H0) Hd).
 Qed.
